@@ -22,7 +22,7 @@ TRUSTED = [
 ]
 IMPORTS = "From Aelys Require Import Extracted.AsiTokens Model.Asi Model.Literal Model.AsiObs."
 
-KNOWN_CLASS = {
+KNOWN_CLASS = {   # repaired root causes the corpus pairs guard against (regression cases)
     "comment-line-before-else": "a `//` comment on a line of its own between `}` and an `else` that starts the next line",
     "newline-separator-inside-parens": "newline-separated statements of a block that sits inside ( or [ (lambda body passed as an argument or wrapped in parentheses)",
 }
@@ -85,7 +85,7 @@ def run_corpus(ctx, hx):
             n += 1
             name, opt, ca, cb, same = p[1], p[2], p[3], p[4], p[5]
             if same != "1":
-                ctx.violation(f"c15:{name}:corpus",
+                ctx.violation(f"c15:corpus:{name}",
                               f"corpus pair {name} at -O{opt}: one layout is {ca}, the other {cb}" +
                               (f" ({KNOWN_CLASS[name]})" if name in KNOWN_CLASS else ""),
                               {"file": "corpus/C15/" + fn, "pair": name, "opt": opt, "first": ca, "second": cb,
@@ -122,8 +122,7 @@ def run(ctx):
     ctx.cov["trusted_base"] = TRUSTED
     ctx.assumptions = ["the piece-level model of the lexer is the code: contract tie on every run",
                        "the theorems cover the lexer's decisions and integer literal values; the parser's use of the stream is explored, not proved"]
-    ctx.cov["refuted_lemmas"] = ["comment_line_irrelevant (witness: `if true {}` NL `// c` NL `else {}`) -> C15_comment_before_else_refuted",
-                                 "explicit_semicolon_equiv without the depth guard (witness: f(fn(x) { a NL b })) -> C15_newline_in_lambda_body_refuted"]
+    ctx.cov["refuted_lemmas"] = []   # both former refutations were repaired in /repo (33a78fa, d14529d) and are now theorems
     proved = ctx.prove("C15", extracted=["AsiTokens"])
     if ctx.tier == "thorough" and proved:
         ctx.coqchk("C15")
@@ -258,15 +257,14 @@ def run(ctx):
         bsep, vsep = [int(x) for x in fl["sep_inside_parens"].split("/")]
         rep = {"family": fam, "flags": flags, "opt": opt, "base_class": cb, "variant_class": cv,
                "base_program": unesc(p[8]), "variant_program": unesc(p[9]), "base_output": p[10], "variant_output": p[11]}
-        # classification into the known classes by decidable predicates computed by the renderer
+        # no known class is left: KF-C15-1 and KF-C15-2 are repaired, any mismatch is a violation;
+        # the renderer's flags only say where to look
+        sig = f"c15:variant-differs:{fam}"
         if fam == "Comment" and fl["comment_before_else"] == "1" and cb != "compile-error" and cv == "compile-error":
-            sig = "c15:comment-line-before-else:generated"
-        elif fam == "Semi" and bsep > 0 and cb == "compile-error" and cv != "compile-error":
-            sig = "c15:newline-separator-inside-parens:generated"
-        elif fam == "Parens" and vsep > bsep and cb != "compile-error" and cv == "compile-error":
-            sig = "c15:newline-separator-inside-parens:generated"
-        else:
-            sig = f"c15:variant-differs:{fam}"
+            sig += ":comment-line-before-else"
+        elif (fam == "Semi" and bsep > 0 and cb == "compile-error" and cv != "compile-error") or \
+             (fam == "Parens" and vsep > bsep and cb != "compile-error" and cv == "compile-error"):
+            sig += ":newline-separator-inside-parens"
         r = ctx.violation(sig, f"re-layout by family {fam} changes the program: original is {cb}, variant is {cv} ({flags}, -O{opt})", rep)
         nviol[r] += 1
     total += nvar
